@@ -14,17 +14,22 @@ CLAIM = ('Proved in Coq END TO END for the model, Numbers naming, Age and AgeOrS
          "inside one period and never splits inside a period (C09_oracle_*). That the implementation's files are exactly this "
          'partition, for all namings, append-restarts, AgeOrSize and non-zero zone offsets, and that time-stamp-named files '
          'carry the instant their content was started, is decided by the correspondence check (virtual clock + creation-time '
-         "hooks) plus the oracle applied to the implementation's directory; an end-to-end invariant proof over histories exists "
-         'for Numbers naming (C01/C08), the timestamp namings are partial. Also proved END TO END for TimestampsDirect naming, '
-         "any criterion, clock not going backwards: the rotation flag of every write is the oracle's decision "
-         "(C09_timestampsdirect_age_flags), the files are the oracle's period partition and the time stamp in each file's name "
-         'is the instant at which the file was started (C09_timestampsdirect_age_partition), which lies in the period of every '
-         'record of the file (C09_timestampsdirect_name_in_period). Observation from that proof (not a violation: the property '
-         'speaks of the local clock): with use_utc the names show UTC while the periods compared are local ones, so under a zone '
-         'offset of 30 minutes two files named within one UTC hour can exist with Age::Hour '
-         '(TsdAge.tsd_age_utc_names_local_periods). Timestamps naming (rCURRENT) with an age criterion is decided by oracle and '
-         'correspondence only. ')
-THEOREMS = ["C09_numbers_age_flags", "C09_numbers_age_partition", "C09_numbers_age_periods_pure", "C09_numbers_age_or_size_periods_pure", "C09_period", "C09_calendar_bijective", "C09_civil_roundtrip", "C09_rotation_iff_later_period", "C09_age_or_size", "C09_model_decision", "C09_timestampsdirect_age_flags", "C09_timestampsdirect_age_partition", "C09_timestampsdirect_name_in_period"]
+         "hooks) plus the oracle applied to the implementation's directory; custom formats, append-restarts and sequences of "
+         'runs under an age criterion are decided by oracle and correspondence only: partial there. Also proved END TO END for '
+         "TimestampsDirect naming, any criterion, clock not going backwards: the rotation flag of every write is the oracle's "
+         "decision (C09_timestampsdirect_age_flags), the files are the oracle's period partition and the time stamp in each "
+         "file's name is the instant at which the file was started (C09_timestampsdirect_age_partition), which lies in the "
+         'period of every record of the file (C09_timestampsdirect_name_in_period). Observation from that proof (not a '
+         'violation: the property speaks of the local clock): with use_utc the names show UTC while the periods compared are '
+         'local ones, so under a zone offset of 30 minutes two files named within one UTC hour can exist with Age::Hour '
+         '(TsdAge.tsd_age_utc_names_local_periods). Likewise END TO END for NumbersDirect naming (clock may be set back: '
+         'C09_numbersdirect_age_flags, C09_numbersdirect_age_partition, C09_numbersdirect_age_periods_pure) and for Timestamps '
+         'naming with rCURRENT (clock not going backwards: C09_timestamps_age_flags, C09_timestamps_age_partition; a closed file '
+         'is found under the time stamp of its START - its first record or the rotate() that started it -, not of its closing: '
+         'C09_timestamps_name_is_start, C09_timestamps_name_in_period) - so all four standard namings are covered. For the time- '
+         "stamp namings 'clock not going backwards' is needed: with the clock set back the flags are still the oracle's, but a "
+         'reader who sorts by time stamp finds the files out of order (TsAge.ts_age_clock_set_back). ')
+THEOREMS = ["C09_numbers_age_flags", "C09_numbers_age_partition", "C09_numbers_age_periods_pure", "C09_numbers_age_or_size_periods_pure", "C09_period", "C09_calendar_bijective", "C09_civil_roundtrip", "C09_rotation_iff_later_period", "C09_age_or_size", "C09_model_decision", "C09_timestampsdirect_age_flags", "C09_timestampsdirect_age_partition", "C09_timestampsdirect_name_in_period", "C09_numbersdirect_age_flags", "C09_numbersdirect_age_partition", "C09_numbersdirect_age_periods_pure", "C09_timestamps_age_flags", "C09_timestamps_age_partition", "C09_timestamps_name_is_start", "C09_timestamps_name_in_period"]
 TRUSTED = ["modelled, not verified: chrono's conversion of instants to local broken-down time (validated: file names are direct outputs), "
            "the file system's creation times (replaced by the virtual clock through the hooks)"]
 ASSUMPTIONS = ["fixed zone offset per process (DST transitions are outside the model)", "no I/O faults, single thread"]
